@@ -5,7 +5,7 @@ from . import enc, gen
 from . import stubs  # noqa
 
 AWKWARD = ['(', ')', '[', ']', '{', '}', '<', '>', '&', '"', "'", '/', '|', ',', '.', ':', ';', '-', '_', '%', 'a>b', '<x>', 'a/b', 'x&y',
-           "can't", '"q"', 'C++', '100%', '-LRB-', 'a_b', '日本', '語', 'é', '\U0001F600', 'café', 'A|B', 'x:y', '&amp;', 'a.b', '--', 'x)[conj]', 'y][conj]', 'f(x)', 'T>', '<L', 'a\\b', 'wow!', '!', '9am', 'U.S.', '_(', '_.x', '_-']
+           "can't", '"q"', 'C++', '100%', '-LRB-', 'a_b', '日本', '語', 'é', '\U0001F600', 'café', 'A|B', 'x:y', '&amp;', 'a.b', '--', 'x)[conj]', 'y][conj]', 'f(x)', 'T>', '<L', 'a\\b', 'wow!', '!', '9am', 'U.S.', '_(', '_.x', '_-', '):', ')a', '(b', '))x']
 PLAIN = ['John', 'loves', 'Mary', 'the', 'dog', 'runs', 'and', 'cat', 'quickly', 'of', 'Tokyo', 'saw']
 
 
@@ -29,7 +29,7 @@ def words_for(rng, n, awkward=0.4, exclude=''):
 
 
 def en_token(rng, word):
-    return {'word': word, 'lemma': rng.choice([word.lower(), 'XX', 'be', word, '*']), 'pos': rng.choice(['NN', 'VBZ', 'DT', 'IN', ',', '.', 'XX']),
+    return {'word': word, 'lemma': rng.choice([word.lower(), 'XX', 'be', word, '*', '']), 'pos': rng.choice(['NN', 'VBZ', 'DT', 'IN', ',', '.', 'XX']),
             'entity': rng.choice(['O', 'I-PER', 'XX']), 'chunk': rng.choice(['I-NP', 'I-VP', 'XX'])}
 
 
